@@ -328,6 +328,7 @@ def replay_once(binary, case, env, isolate=False, timeout=900, extra_args=()):
     try:
         cmd = [binary, "--out", d, "--known", KNOWN] + (["--isolate"] if isolate else []) + list(extra_args) + \
               ["--replay", case]
+        env = dict(env, VERIF_SCRATCH=d)
         if "ASAN_OPTIONS" in env:  # a single case: full allocation stacks in the report
             env = dict(env, ASAN_OPTIONS=env["ASAN_OPTIONS"].replace("malloc_context_size=10", "malloc_context_size=30"))
         r = subprocess.run(cmd, env=env, stdout=subprocess.PIPE, stderr=subprocess.STDOUT, cwd=d, timeout=timeout)
@@ -350,7 +351,8 @@ def confirm(binary, case, env, extra_args=()):
     if RACY_ATTEMPTS:
         fails = []
         for _ in range(RACY_ATTEMPTS):
-            rc, out = replay_once(binary, case, env, extra_args=extra_args)
+            # (a replay that hangs counts as a failing one after 150 s, not after the 10x margin of a single replay)
+            rc, out = replay_once(binary, case, env, timeout=150, extra_args=list(extra_args) + ["--case-timeout", "12"])
             if rc != 0:
                 fails.append((rc, out))
                 if len(fails) >= 2:
@@ -494,6 +496,9 @@ def run_check(pid, tier, seed, failfast=True):
     os.makedirs(rundir)
     sdir = tempfile.mkdtemp(prefix="vf-%s-" % pid, dir=scratch_root())
     env = base_env()
+    # the harnesses make their scratch directories below VERIF_SCRATCH: inside this run's directory, so that what a
+    # killed shard leaves behind goes away with it
+    env["VERIF_SCRATCH"] = sdir
     env.update(p.get("env", {}))
     violations = []  # (replay path, text)
     unreproduced = 0
